@@ -175,6 +175,10 @@ def run(prog: Program, col: Collector, tier: str, refs: Optional[Refs] = None, c
     col.rule("R04.16", "substituting a ground value into a Delta matches only if ALL coordinates of the point are equal", floor=1)
     _delta_match(prog, col, refs, cat)
 
+    # ---------------------------------------------------------------- R04.17
+    col.rule("R04.17", "a rebuilt node is substituted only at the names that are fresh in the node itself, not in what it evaluated to", floor=1)
+    _fresh_of_original_node(prog, col, refs, cat)
+
     # ---------------------------------------------------------------- R04.3
     col.rule("R04.3", "Subs declares f's unsubstituted inputs plus the inputs of the substituted values", floor=3)
     si = require_func(prog, "funsor.terms::Subs.__init__")
@@ -1001,3 +1005,74 @@ def _delta_match(prog: Program, col: Collector, refs: Refs, cat: Catalogue):
                       "(the substituted Delta returns its density instead of -inf)", f.loc(c))
     if n == 0:
         raise AnalysisError("Delta.eager_subs: no reduced coordinate-wise comparison found")
+
+
+# ---------------------------------------------------------------------- R04.17
+def _fresh_of_original_node(prog: Program, col: Collector, refs: Refs, cat: Catalogue):
+    """substitute() rebuilds an expression bottom-up; SubstituteInterpretation.interpret constructs each node from its (already
+    substituted) children and applies the pairs whose key is a FRESH name of that node (a Tensor's own inputs, a Cat's name ...).
+    If the construction is evaluated by the base interpretation (a lazy Reduce of a tensor becomes a Tensor) the fresh names of the
+    result are all its inputs - including names that came in with the values just substituted into the children - so deciding by
+    `result.fresh` applies pairs a second time (f(i=idx) with idx depending on i gives t[idx[idx]]).  The names must come from the
+    node being rebuilt."""
+    cls = prog.classes.get("funsor.terms.SubstituteInterpretation")
+    drv = prog.funcs.get("funsor.terms::substitute")
+    if cls is None or "interpret" not in cls.methods or drv is None:
+        raise AnalysisError("anchors SubstituteInterpretation.interpret / substitute not found")
+    im = cls.methods["interpret"]
+    selfn, clsn = im.positional[0], im.positional[1]
+    # the local that holds the constructed node
+    built = {st.targets[0].id for st in walk_no_nested(im.node) if isinstance(st, ast.Assign) and len(st.targets) == 1 and isinstance(st.targets[0], ast.Name)
+             and isinstance(st.value, ast.Call) and isinstance(st.value.func, ast.Name) and st.value.func.id == clsn}
+    # membership tests `k in <F>` that select the pairs
+    sel = [c for c in ast.walk(im.node) if isinstance(c, ast.Compare) and len(c.ops) == 1 and isinstance(c.ops[0], ast.In)
+           and isinstance(f_ := c.comparators[0], (ast.Name, ast.Attribute)) and (norm(f_).endswith("fresh") or isinstance(f_, ast.Name))]
+    if not sel or not built:
+        col.unresolved(f"{im.fq}::selection of pairs", "cannot find the construction / the freshness test", im.loc())
+        return
+    defs = {}
+    for st in walk_no_nested(im.node):
+        if isinstance(st, ast.Assign):
+            if len(st.targets) == 1 and isinstance(st.targets[0], ast.Name):
+                defs.setdefault(st.targets[0].id, []).append(st.value)
+            elif len(st.targets) == 1 and isinstance(st.targets[0], ast.Tuple) and isinstance(st.value, ast.Tuple) and len(st.targets[0].elts) == len(st.value.elts):
+                for a, b in zip(st.targets[0].elts, st.value.elts):
+                    if isinstance(a, ast.Name):
+                        defs.setdefault(a.id, []).append(b)
+
+    def sources(e, depth=0):
+        """'result' if the names are those of the constructed object, ('self', attr) if they come from an attribute of the interpretation"""
+        out = set()
+        if depth > 4:
+            return out
+        if isinstance(e, ast.Attribute) and e.attr == "fresh" and isinstance(e.value, ast.Name):
+            if e.value.id in built:
+                out.add(("result",))
+            elif e.value.id == selfn:
+                out.add(("self", e.attr))
+        elif isinstance(e, ast.Attribute) and isinstance(e.value, ast.Name) and e.value.id == selfn:
+            out.add(("self", e.attr))
+        elif isinstance(e, ast.Name):
+            for d in defs.get(e.id, []):
+                out |= sources(d, depth + 1)
+        elif isinstance(e, ast.IfExp):
+            out |= sources(e.body, depth + 1) | sources(e.orelse, depth + 1)
+        return out
+
+    for c in sel:
+        src = sources(c.comparators[0])
+        if not src:
+            continue
+        handed = [s_ for s_ in src if s_[0] == "self"]
+        construct = f"{im.fq}::{norm(c)}"
+        if not handed:
+            col.violation(construct, "the pairs applied to a rebuilt node are chosen by the fresh names of the constructed RESULT; when the base interpretation evaluates the node "
+                          "those include inputs introduced by the values already substituted into its children, so a pair is applied twice "
+                          "(lazy t.reduce(max, 'j')(i=idx) with idx depending on i indexes with idx[idx]); the names must be those of the node being rebuilt", im.loc(c))
+            continue
+        # the driver hands over the fresh names of the ORIGINAL node before every rebuild
+        attr = handed[0][1]
+        gives = [st for st in ast.walk(drv.node) if isinstance(st, ast.Assign) and any(isinstance(t, ast.Attribute) and t.attr == attr for t in st.targets)
+                 and isinstance(st.value, ast.Attribute) and st.value.attr == "fresh"]
+        col.check(bool(gives), construct, f"the fresh names of the node being rebuilt are handed over by substitute() (`.{attr} = <node>.fresh`) and take precedence over the result's",
+                  f"interpret consults `{selfn}.{attr}` but substitute() never sets it from the fresh names of the node it rebuilds", im.loc(c))
